@@ -184,14 +184,17 @@ def main():
                     tab, relaxation_theory="standard_Redfield")
                 hamp = ham
             Nt = int(rng.randint(4, 8))
-            dt = float(rng.choice([2.0, 5.0]))
+            # steps and numbers of dense sub-steps whose quotient is not
+            # exactly representable (0.9 / 7, 4.5 / 14, 1.7 / 13 ...)
+            dt = float((2.0, 0.9, 5.0, 4.5, 1.7)[s % 5])
+            rng.rand()
             # the grid need not start at zero
             t0 = float((0.0, 50.0, -20.0, 7.5)[s % 4])
             time = qr.TimeAxis(t0, Nt, dt)
             rp["t0"] = t0
             dim = ham.dim
             esos = {}
-            for dn in (1, 2, 4):
+            for dn in (1, 2, 4, 7, 13):
                 e = qr.qm.EvolutionSuperOperator(time, ham=ham, relt=RT)
                 e.set_dense_dt(dn)
                 quiet(e.calculate)
@@ -226,6 +229,18 @@ def main():
             v = rng.randn(dim) + 1j * rng.randn(dim)
             v /= numpy.linalg.norm(v)
             rho0 = numpy.outer(v, v.conj())
+            # (also with 7 dense sub-steps against a propagator refined 7x)
+            p7 = ReducedDensityMatrixPropagator(time, hamp, RTensor=RT)
+            p7.setDtRefinement(7)
+            d7 = numpy.array(quiet(p7.propagate, qr.ReducedDensityMatrix(
+                data=rho0.copy())).data)
+            a7 = numpy.einsum('tabcd,cd->tab', esos[7], rho0)
+            e7 = float(numpy.abs(a7 - d7).max())
+            ck.case("apply-equals-propagation", (s, "dense7"),
+                    sample=dict(rp, dense=7, err=e7))
+            if e7 > 1e-10:
+                ck.violation("apply-equals-propagation", kind + ":dense=7",
+                             dict(rp, dense=7, err=e7), rp)
             e2 = qr.qm.EvolutionSuperOperator(time, ham=ham, relt=RT)
             e2.set_dense_dt(2)
             quiet(e2.calculate)
@@ -292,7 +307,7 @@ def main():
                     Lm = Lm + g * (numpy.kron(K, K) - 0.5 * numpy.kron(KdK, I)
                                    - 0.5 * numpy.kron(I, KdK.T))
                 gg = float(numpy.abs(Lm).sum(axis=0).max())
-                for dn in (1, 2, 4):
+                for dn in (1, 2, 4, 7, 13):
                     h = dt / dn
                     Tm = sum(numpy.linalg.matrix_power(Lm * h, l) /
                              math.factorial(l) for l in range(5))
